@@ -10,6 +10,11 @@ NOTE_COMMON = ("Trusted: Lean 4.33 kernel with axioms propext/Classical.choice/Q
                "rounding modes; third-party libraries, Rust std, cffi, md5, OS are trusted. ")
 
 CLAIMED = {
+    "C14": dict(
+        text="Lean theorems: (A) a twin machine applies every operation (add, add-with-abundance incl. abundance 0, add_many, add_many_with_abund, remove_many, clear, merge, add_from, downsample_scaled, both From conversions, serde round trip, md5) to the model of KmerMinHash and to the model of KmerMinHashBTree (BTreeSet/BTreeMap as ascending lists, current_max, md5 cache); btree_eq_vec proves for the current source (D14 repaired, /repo 779da1d; the translator re-reads the four repaired sites and source_has_repair fails otherwise) that parameters, hashes, abundances and md5 coincide at every handle along EVERY history of sketches that are num or scaled, not both (conversions: stable thresholds); the statement without that hypothesis is false (kernel-checked counterexample, known finding D14e); regression theorems about the unrepaired variant (agreement outside the D14 classes + four kernel-checked counterexamples) record what the repair removed; conv_preserves (given Stable), count_common / intersection_size agree. (B) the parser of -p strings is total with its exception classes characterised, never yields num and scaled together, build_template yields exactly one fresh sketch per (k, moltype) with the requested parameters, every factory-built sketch is num xor scaled, and factory_eq_direct: a factory-built sketch fed any hashes converts to exactly the directly-created sketch fed the same hashes (same JSON, same md5). Tied to the code by the twin stream (Lean twin vs real KmerMinHash+KmerMinHashBTree through the Rust harness; oracle: the two real observations are equal), the sketch stream (parameter strings from a grammar through parse/factory/sig.minhash/JSON; FASTA records into factory-built vs directly-created sketches) and, in the thorough tier, the sourmash sketch dna|protein|translate command line.",
+        note=NOTE_COMMON + "The translator re-reads DEFAULTS, the x3 multiplier, the order of the parser's item tests, build_template's molecule order and builder calls, the ComputeParameters defaults and which of the two known shapes (repaired / as first found) the four D14 sites have; the twin driver runs the variant the source has; a partial repair or revert is reported as a broken tie. Hashing of sequences is C02's subject (factory_eq_direct is over hash lists; real sequences are compared impl-vs-impl by the oracle). Stable (threshold survives scaled()) is a hypothesis here, C03's theorem for scaled <= 2^31. Findings: D14a-d fixed (779da1d); known: D14e (a sketch that is both num and scaled, Rust API only) and C14.1 (-p scaled=0 / num=0 accepted).",
+        technique="Lean 4 simulation proof between two implementations (abstraction function + invariants, induction over op histories, ghost flag for the classes excluded in the unrepaired variant) + parser/factory model; model/impl correspondence over generated histories and parameter strings; translator for literal tables and code shapes",
+        ref="DESIGN.md section 5 C14"),
     "C05": dict(
         text="Lean theorems on Inv sketches: intersection_size = (|A∩B|, |A∪B|), count_common = |A∩B| independent of the swap-by-size, Jaccard = |A∩B|/max(1,|A∪B|) (in Q and as the exact double) with range/self/disjoint/symmetry, the num path restricted to the bottom-n of the union, the angular merge loop = Σ a_h b_h with both norms, similarity dispatch, raw containment = common/|A| with 0<bias<=1, corrected>=raw, clamped<=1, max/avg containment symmetric, with the downsample flag containment = containment of the pair downsampled to the common scaled, check_compatible ⇔ same k/molecule/seed/max_hash and every comparison of incompatible sketches (containment functions with empty operands and the comparison dataclasses included) is an error. Tied to the code by the cmp stream (bit-exact integers and ratios, independent set/Fraction oracle) and by a translator re-reading check_compatible, the Jaccard expression and the statement sequence of the containment functions.",
         note=NOTE_COMMON + "Floats tier 2: sqrt/acos of the angular similarity and the bias factor (1-1/s)^(n*s) are computed with the runtime Float and compared with relative tolerance 1e-12, not proved; as a consequence the self-similarity of the angular measure is 1 only up to 1.3e-8 (known finding C05-F2, shown by the oracle on the real code; the theorem angular_self_parts proves the cosine fed to the float tail is exactly 1). u64 overflow of the sums of squared abundances assumed absent in the theorems (the model wraps like the release build). scaled <= 2^31. Two different non-zero num values are outside the statement (similarity answers, jaccard refuses).",
